@@ -33,7 +33,7 @@ CLAIMED = {
         "concatenations, field replacements and interleaved write / to-rows observations over a pool of lazily read tables; a byte-level model "
         "(source record byte strings plus per-row replaced fields) predicts the written bytes exactly for unmodified selections and field by "
         "field for concatenated or modified tables. BAM: files from the independent encoder with programs of selections, field reads, writes and "
-        "concatenations (random steps plus select - read - write - read chains); written selections must be the original record bytes and every field read at any point must be the generated value.",
+        "concatenations (random steps plus select - read - write - read chains); written selections must be the original record bytes and every field read at any point must be the generated value. Also: VCF files with FORMAT and sample columns read as plain entries (the columns after INFO must survive a modified write), GFA, attribute assignment on selections, masks and row lists given as Python lists, and GTF files with non-canonical start/stop spellings (open finding: GTF is parsed on reading, so these come back in canonical spelling).",
         "Holds on the explored region only; nine text format variants and BAM. Trusts pbt/formats.py record serializers and pbt/bamenc.py. BamBuffer does not support writing parsed tables (supports_modified_write = False): such a write must raise. Tolerances: float re-formatting within 8 ulp, '.' placeholder may become 0 in a replaced column, an empty SAM tags field may be written as a trailing tab.",
         "Hypothesis-generated operation programs interpreted against a byte-level reference model"),
     "C05": (
@@ -75,7 +75,7 @@ CLAIMED = {
         "location sets emphasising entries at chromosome boundaries; every genome-wide operation (mask, pileup, sorted, merged, clip, "
         "extended_to_size, get_location, get_windows, array and sequence values under stranded intervals through the dict and the indexed-FASTA "
         "back ends, Geometry helpers) is compared per chromosome with the single-contig model applied to that chromosome's entries alone, and "
-        "the GlobalOffset conversions are checked exhaustively for every generated genome.",
+        "the GlobalOffset conversions are checked exhaustively for every generated genome. Also: map_locations, BinnedGenome.count, GenomicIntervals.from_fields, sort_names=True, and the interval set taken back from a mask (from_track) and sorted.",
         "Holds on the explored region only. In-memory (Full) variants plus the pileup through the streamed per-chromosome path; streaming itself is C11/C12. The per-chromosome model is the one validated in C08.",
         "Hypothesis generation, reference-model oracle (per-chromosome restriction) + exhaustive bijection check per genome"),
     "C11": (
@@ -125,7 +125,7 @@ CLAIMED = {
         "Exhaustive over every FASTA of 1 record (2 or 3 thorough) with lengths up to 7 and per-record wrap widths up to 8, crossed with every "
         "interval [a, b) of every record, for library-built and model-supplied indexes and files with and without a final newline; Hypothesis "
         "for lengths up to 400, widths up to 130; a 5.6 MB and a 16 MB file reach the cross-chunk offsets of create_index (2 and 4 read chunks). Oracle: the model records "
-        "(index fields, contig lengths, whole contigs, substrings through both lookup paths with a label order different from the file order).",
+        "(index fields, contig lengths, whole contigs, substrings through both lookup paths with a label order different from the file order). A quarter of the sampled files have CRLF line ends; another FASTA may have lived at the same path first (read through open_indexed and through the genome object).",
         "Holds on the explored region; the small cores are complete. Files are really written to a temporary directory.",
         "exhaustive small-domain enumeration + Hypothesis sampling, reference-model oracle (records and faidx layout computed by the generator)"),
     "C18": (
